@@ -16,6 +16,13 @@ __all__ = ['MessageContent', 'MessageHeader', 'MessageBody']
 
 _default_type: Final = 'text/plain'
 
+#: Nested parts are parsed down to this level, a multipart or message/rfc822
+#: part found there is not taken apart: its body is kept as opaque content.
+#: Everything that reads the parsed structure (``BODYSTRUCTURE``, ``json``,
+#: ``walk()``) is recursive, with several stack frames per level.
+_max_depth: Final = 50
+_opaque_type: Final = 'application/octet-stream'
+
 _Line: TypeAlias = tuple[int, int, int]
 _Lines: TypeAlias = Sequence[_Line]
 _Folded: TypeAlias = Sequence[tuple[str, _Lines]]
@@ -57,11 +64,7 @@ class MessageContent(Writeable):
     @property
     def is_rfc822(self) -> bool:
         """True if the content-type of the message is ``message/rfc822``."""
-        ct_hdr = self.header.parsed.content_type
-        if ct_hdr is None:
-            return False
-        else:
-            return ct_hdr.content_type == 'message/rfc822'
+        return self.body.content_type.content_type == 'message/rfc822'
 
     @property
     def json(self) -> Mapping[str, Any]:
@@ -108,12 +111,12 @@ class MessageContent(Writeable):
         return cls._parse(data, view, lines)
 
     @classmethod
-    def _parse(cls, data: bytes, view: memoryview, lines: _Lines) \
-            -> MessageContent:
+    def _parse(cls, data: bytes, view: memoryview, lines: _Lines,
+               depth: int = 0) -> MessageContent:
         header_lines, body_lines = cls._split_lines(data, lines)
         header = MessageHeader._parse(data, view, header_lines)
         content_type = header.parsed.content_type
-        body = MessageBody._parse(data, view, body_lines, content_type)
+        body = MessageBody._parse(data, view, body_lines, content_type, depth)
         return cls(data, header, body)
 
     @classmethod
@@ -361,7 +364,8 @@ class MessageBody(Writeable):
 
     @classmethod
     def _parse(cls, data: bytes, view: memoryview, lines: _Lines,
-               content_type: ContentTypeHeader | None) -> MessageBody:
+               content_type: ContentTypeHeader | None,
+               depth: int = 0) -> MessageBody:
         if content_type is None:
             content_type = cls._parse_content_type(_default_type)
         maintype = content_type.maintype
@@ -369,9 +373,14 @@ class MessageBody(Writeable):
             boundary = cls._get_boundary(content_type)
             if boundary:
                 return cls._parse_multipart(
-                    data, view, lines, content_type, boundary)
+                    data, view, lines, content_type, boundary, depth)
         elif maintype == 'message' and content_type.subtype == 'rfc822':
-            return cls._parse_rfc822(data, view, lines, content_type)
+            return cls._parse_rfc822(data, view, lines, content_type, depth)
+        return cls(data, lines, content_type, [])
+
+    @classmethod
+    def _opaque(cls, data: bytes, lines: _Lines) -> MessageBody:
+        content_type = cls._parse_content_type(_opaque_type)
         return cls(data, lines, content_type, [])
 
     @classmethod
@@ -398,18 +407,24 @@ class MessageBody(Writeable):
 
     @classmethod
     def _parse_rfc822(cls, data: bytes, view: memoryview, lines: _Lines,
-                      content_type: ContentTypeHeader) -> MessageBody:
-        subpart = MessageContent._parse(data, view, lines)
+                      content_type: ContentTypeHeader,
+                      depth: int = 0) -> MessageBody:
+        if depth >= _max_depth:
+            return cls._opaque(data, lines)
+        subpart = MessageContent._parse(data, view, lines, depth + 1)
         return cls(data, lines, content_type, [subpart])
 
     @classmethod
     def _parse_multipart(cls, data: bytes, view: memoryview, lines: _Lines,
                          content_type: ContentTypeHeader,
-                         boundary: bytes) -> MessageBody:
+                         boundary: bytes, depth: int = 0) -> MessageBody:
+        if depth >= _max_depth:
+            return cls._opaque(data, lines)
         parts = cls._find_parts(data, view, lines, boundary)
         nested: list[MessageContent] = []
         for part_lines in parts:
-            sub_content = MessageContent._parse(data, view, part_lines)
+            sub_content = MessageContent._parse(
+                data, view, part_lines, depth + 1)
             nested.append(sub_content)
         return cls(data, lines, content_type, nested)
 
